@@ -147,11 +147,16 @@ def _worker(arg):
         r = mod.run_job(job)
         if r is None:
             raise HarnessError(f"{modname}.run_job returned None for {job!r}")
+        for v in r.violations:
+            v["job"] = job  # lets the driver fall back to replaying the whole job (state leaked between executions)
         return ("ok", r)
     except HarnessError as exc:
         return ("harness", f"{exc}\n{traceback.format_exc()}")
     except BaseException as exc:  # noqa: BLE001 - reported, then confirmed by replay
         return ("exc", (job, f"{type(exc).__name__}: {exc}", traceback.format_exc()))
+
+
+JOB_TIMEOUT = float(os.environ.get("VERIF_JOB_TIMEOUT", "1800"))
 
 
 def run_jobs(mod, jobs, workers):
@@ -167,7 +172,17 @@ def run_jobs(mod, jobs, workers):
         pool = ctx.Pool(min(workers, len(jobs)))
         results = pool.imap_unordered(_worker, args, chunksize=1)
     try:
-        for kind, payload in results:
+        it = iter(results)
+        while True:
+            try:
+                kind, payload = it.next(JOB_TIMEOUT) if pool is not None else next(it)
+            except StopIteration:
+                break
+            except mp.TimeoutError:
+                harness.append(f"no job finished within {JOB_TIMEOUT:.0f} s (hang); workers terminated")
+                pool.terminate()
+                pool = None
+                break
             if kind == "ok":
                 merged.merge(payload)
             elif kind == "harness":
